@@ -118,8 +118,8 @@ def _one(args):
                 ob = case["loss"][lname][kv]
                 pred_can = [Fraction(v, 2) for v in ob["pred"]]                      # canonical order
                 hpos = [float(pred_can[order[j]]) for j in range(n)]
-                for rng_key, (lo, hi) in (("g01", (0, 1)), ("gwide", (-1, 2))):
-                    if not has_range and rng_key == "gwide":
+                for rng_key, (lo, hi) in (("g01", (0, 1)), ("gwide", (-1, 2)), ("gmid", (0, 1.5))):      # clip ranges; predictions lie inside, on and beyond them
+                    if not has_range and rng_key != "g01":
                         continue
                     try:
                         loss = cls(lo, hi) if has_range else cls()
